@@ -127,7 +127,7 @@ def explore_solver(led, modified, line_search, kT_initial):
     if len(whiles) != 4:
         raise CheckerError('_solver_NR: expected 4 while loops (load steps, iterations, line search, bisection), found %d' % len(whiles))
     outer, inner, ls, bis = whiles
-    it.loop_modes[(Q, outer.lineno)] = InvariantWhile('load-step-loop', outer_inv, ghosts=(incs, cs),
+    it.loop_modes[(Q, outer.lineno)] = InvariantWhile('load-step-loop', outer_inv, ghosts=(incs, cs), owned=('c',),
                                                       sorts={'c': Vec(('c',)), 'kT': Vec(('kT',)), 'kT_last': Vec(('kT',)), 'fext': Vec(('f',))})
     it.loop_modes[(Q, inner.lineno)] = InvariantWhile('iteration-loop', inner_inv, sorts={'c': Vec(('c',)), 'kT': Vec(('kT',))})
     it.loop_modes[(Q, ls.lineno)] = invloop.HavocLoop('line-search-loop', sorts={'c1': Vec(('c',)), 'c2': Vec(('c',)), 'fint1': Vec(('f',)), 'fint2': Vec(('f',)), 'R1': Vec(('f',)), 'R2': Vec(('f',)), 's1': real('s'), 's2': real('s'), 'eta_new': real('e')})
@@ -152,7 +152,7 @@ def explore_solver(led, modified, line_search, kT_initial):
         for ev in itp.path.log:
             if ev[0] == 'append' and ev[1] == 'cs':
                 held.add(ev[2])
-            elif ev[0] == 'mutate' and ev[1] in held:
+            elif ev[0] == 'mutate' and (ev[1] in held or ev[3]):
                 bad.append(ev[2])
         itp.path.obligations.append(('syntactic', 'report/states-not-altered-later', not bad, []))
     it.return_hooks[Q] = at_return
